@@ -333,6 +333,28 @@ PROPS["C13"] = {
     "assumptions": ["number text is shortest decimal form without exponent (as print shows it in the documentation)"],
 }
 
+PROPS["C16"] = {
+    "pkg": "p16",
+    "level": "translation_validation",
+    "level_text": "Per-program translation validation by differential execution: ~3*10^4 (quick) / ~6*10^5 (thorough) generated programs "
+                  "inside the compiler's supported subset (inferred declarations, assignments to variables and array elements, num/string/"
+                  "array operators, comparisons, unary, index, slice, array and map literals, if/else-if/else, while, the four for forms, "
+                  "break, block locals, shadowing) are run on the evaluator and on compiler+VM; every global of the evaluator must have "
+                  "the same structural value on the VM (hook VerifGlobals on both sides), run-time errors must correspond (division by "
+                  "zero may fail on the VM alone). A quarter of the programs get exactly one construct from outside the subset (10 kinds): "
+                  "Compile must then return an error.",
+    "level_note": "The VM has no instruction budget; a VM run is abandoned after 3 s and reported as vm-hang (the evaluator run is "
+                  "bounded by fuel first). Two open VM findings (map store order, loop variable slot) are avoided by construction and "
+                  "counted in excluded_by_construction; their reproducers run on every check.",
+    "technique": "differential property-based testing of compiler+VM against the evaluator on generated programs, final globals compared structurally (rapid)",
+    "tests": [
+        {"name": "TestProp", "quick": {"shards": 8, "checks": 4000}, "thorough": {"shards": 16, "checks": 40000}},
+    ],
+    "rule": "cases: generated programs; programs = cases whose globals were compared. Non-trivial = compared program with a loop and a "
+            "composite value, or an unsupported construct that was rejected, or a run-time error both sides agree on; distinct by source text.",
+    "assumptions": ["hooks (build tag verif): Evaluator.VerifGlobals, VM.VerifGlobals(Compiler), read-only"],
+}
+
 NOT_APPLICABLE = {}
 
 ENGINES = [
